@@ -126,7 +126,11 @@ def proof_race_cases(tier, seed):
                 script += [('qat', rng.choice(('header_proof', 'header_proof', 'headers_proof')), 'tipcp') for _q in range(rng.randrange(2, 5))]
                 script += [('sleep', rng.choice((0, 0.05))), rng.choice((('rpc_reorg', rng.randrange(1, 4)), ('w', 'reorg'))), ('sleep', 45)]
                 script += [('qat', 'header_proof', 'tipcp'), ('sleep', 6)]
-        cases.append({'seed': rng.randrange(1 << 30), 'nclients': 1, 'nscripts': 3, 'judge': ['C11'], 'script': script, 'family': fam,
+        if fam == 'tx' and j % 2 == 0 or fam == 'hdr' and j % 4 == 1:
+            extra = {'query_at_backup': True}
+        else:
+            extra = {}
+        cases.append({**extra, 'seed': rng.randrange(1 << 30), 'nclients': 1, 'nscripts': 3, 'judge': ['C11'], 'script': script, 'family': fam,
                       'flushkind': 'none', 'flushvec': None, 'policy': rng.choice(('random', 'lazy', 'eager')), 'p': 0.3, 'latency': None,
                       'latency_by_method': ({'rest/block': (4, 8, 12), 'getblockhash': (2, 5)} if fam == 'hdr' else None),
                       'txindex': j % 4 < 2, 'prefetch': 100, 'n0': rng.choice((24, 36)), 'colls': 0, 'reorg_limit': rng.choice((4, 6)),
@@ -156,7 +160,8 @@ def run(tier, seed, replay=None):
     for name, minimum in {'quiescent_points_judged': 80, 'proofs_verified': 5000, 'out_of_range_requests_judged': 300,
                           'step:reorg': 20, 'step:forced_reorg': 15, 'merkle_cache_hits': 10, 'query:header_proof': 30, 'concurrent_queries_judged': 20000, 'queries_overlapping_a_truncation': 300,
                           'query:tsc': 30, 'step:big_block_replaced_by_big_block': 5,
-                          'header_proofs_refused_by_short_read_guard': 2, 'jobs_held_at_start': 40}.items():
+                          'header_proofs_refused_by_short_read_guard': 2, 'jobs_held_at_start': 40,
+                          'reorgs_with_requests_sent_at_their_first_backup': 8}.items():
         rep.floor(name, c[name], minimum)
     return rep.finish(
         rule='the C07 scenarios (chains of 20-44 blocks, a quarter with a 200-420 tx block so that the cached per-block path runs) with a '
